@@ -483,7 +483,7 @@ class Engine:
             return self._check2(assumptions, kind, fallback, t0)
         finally:
             if left > 0:
-                signal.setitimer(signal.ITIMER_REAL, max(left, 0.05))
+                signal.setitimer(signal.ITIMER_REAL, max(left, 0.05), WATCHDOG_REPEAT)
 
     def _check2(self, assumptions, kind, fallback, t0):
         if self.tainted and fallback:
@@ -893,6 +893,9 @@ class Engine:
         return res
 
 
+WATCHDOG_REPEAT = 2.0
+
+
 def _alarm(signum, frame):
     raise PathTimeout('path watchdog')
 
@@ -925,7 +928,9 @@ def explore(harness, cfg, max_paths=200000, max_seconds=600.0, witness_every=50,
         else:
             eng.start_path(prefix, model)
         err = None
-        signal.setitimer(signal.ITIMER_REAL, watchdog_s)
+        # repeating: code under test may swallow the first PathTimeout (e.g. a kernel that turns any BaseException raised in a
+        # process into that process's failure); the alarm keeps firing until the path is abandoned
+        signal.setitimer(signal.ITIMER_REAL, watchdog_s, WATCHDOG_REPEAT)
         try:
             if first and profile is not None:
                 import sys
